@@ -56,6 +56,7 @@ type inliner struct {
 	genType   map[*ast.Ident]types.Type
 	exprTypes map[ast.Expr]types.Type
 	seq       int
+	nExp      map[*types.Func]int // call sites expanded, per helper
 	notes     []string
 	noteSet   map[string]bool
 }
@@ -730,7 +731,13 @@ func (in *inliner) substitute(call *ast.CallExpr, tg *target, ctx *fctx, pos tok
 				failed = true
 				return nil
 			}
-			if b.v != sig.Recv() && !types.Identical(at, b.v.Type()) {
+			isConst := false
+			if r, ok := in.root(b.arg).(ast.Expr); ok {
+				if tv, known := info.Types[r]; known && tv.Value != nil {
+					isConst = true // 3 for a float64 parameter must stay float64(3): 3/2 is not 1.5
+				}
+			}
+			if b.v != sig.Recv() && (isConst || !types.Identical(at, b.v.Type())) {
 				te, ok := in.typeExpr(b.v.Type(), ctx, pos)
 				if !ok {
 					failed = true
@@ -774,7 +781,11 @@ func (in *inliner) substitute(call *ast.CallExpr, tg *target, ctx *fctx, pos tok
 	}
 	res := out.(ast.Expr)
 	rt := sig.Results().At(0).Type()
-	if et := in.typeOf(info, e); et == nil || !types.Identical(et, rt) {
+	constBody := false
+	if tv, known := info.Types[e]; known && tv.Value != nil {
+		constBody = true
+	}
+	if et := in.typeOf(info, e); et == nil || constBody || !types.Identical(et, rt) {
 		te, ok := in.typeExpr(rt, ctx, pos)
 		if !ok {
 			return nil
@@ -1186,10 +1197,28 @@ func (in *inliner) processList(list []ast.Stmt, ctx *fctx) []ast.Stmt {
 			out = append(out, cur)
 			if ifs, ok := cur.(*ast.IfStmt); ok {
 				in.splitAnd(ifs, ctx, 0)
+				in.elseChain(ifs, ctx)
 			}
 		}
 	}
 	return out
+}
+
+// elseChain: `else if init; cond {...}` is `else { if init; cond {...} }`; in
+// the block form a helper call in init/cond has a statement list to expand into.
+func (in *inliner) elseChain(ifs *ast.IfStmt, ctx *fctx) {
+	for cur := ifs; cur != nil; {
+		e, ok := cur.Else.(*ast.IfStmt)
+		if !ok || !e.Pos().IsValid() {
+			return
+		}
+		pre, rest := in.hoistStmt(e, e.Pos(), ctx)
+		if len(pre) > 0 {
+			cur.Else = &ast.BlockStmt{List: append(pre, rest)}
+		}
+		in.splitAnd(e, ctx, 0)
+		cur = e
+	}
 }
 
 // hoistStmt expands, in front of cur, every call of a new helper that cur
@@ -1211,6 +1240,7 @@ func (in *inliner) hoistStmt(cur ast.Stmt, pos token.Pos, ctx *fctx) (out []ast.
 			break
 		}
 		in.note("expanded %s into %s at %s (block)", shortFn(w.tg.cand.fn), ctx.decl.Name.Name, in.P.pos(pos))
+		in.nExp[w.tg.cand.fn]++
 		ctx.modified = true
 		out = append(out, pre...)
 		cur = next
@@ -1318,6 +1348,7 @@ func (in *inliner) expandDecl(ctx *fctx) {
 		}
 		if e := in.substitute(call, tg, ctx, call.Pos()); e != nil {
 			in.note("expanded %s into %s at %s (expression)", shortFn(tg.cand.fn), d.Name.Name, in.P.pos(call.Pos()))
+			in.nExp[tg.cand.fn]++
 			c.Replace(e)
 			ctx.modified = true
 		}
@@ -1495,12 +1526,15 @@ func (P *Prog) inventory() []string {
 }
 
 func planInline(P *Prog, ov map[string][]byte) *inlineResult {
-	newFns := P.newFunctions()
+	return planInlineWith(P, ov, P.newFunctions())
+}
+
+func planInlineWith(P *Prog, ov map[string][]byte, newFns map[*types.Func]bool) *inlineResult {
 	if len(newFns) == 0 {
 		return nil
 	}
 	in := &inliner{P: P, cands: map[*types.Func]*inlCand{}, orig: map[ast.Node]ast.Node{},
-		genType: map[*ast.Ident]types.Type{}, noteSet: map[string]bool{}, exprTypes: map[ast.Expr]types.Type{}}
+		genType: map[*ast.Ident]types.Type{}, noteSet: map[string]bool{}, exprTypes: map[ast.Expr]types.Type{}, nExp: map[*types.Func]int{}}
 	declsOf := map[*packages.Package][]*fctx{}
 	for _, p := range P.Pkgs {
 		if !strings.HasPrefix(p.PkgPath, modPath) {
@@ -1657,7 +1691,7 @@ func planInline(P *Prog, ov map[string][]byte) *inlineResult {
 			if cand == nil || cand.why != "" || o.Exported() {
 				continue
 			}
-			if refs[o] <= 1 { // only its own declaration
+			if refs[o] <= 1 && in.nExp[o] > 0 { // only its own declaration is left; a helper that never had a caller stays
 				c.dropped, c.modified = true, true
 				in.note("removed %s: every call was expanded", shortFn(o))
 			}
